@@ -50,25 +50,31 @@ Proof.
   - intros Hne. destruct (d_schema d) as [|s0 st]; [congruence|]. apply filter_In in H2 as [_ H2]. exact H2.
 Qed.
 
-Lemma limit_one_cases : forall v d i c w, In w (limit_one v d (i, c)) ->
-  w_src w = i /\
-  ((w_key w = KTmp (d_id d) i /\ exists k, d_constraints d = Some k /\ w_cred w = limited_cred k c) \/
-   (w_key w = id_key v i c /\ w_cred w = c /\ (forall k, d_constraints d = Some k -> k_limit k = false))).
+(* how a wrapped credential relates to the holder's credential c it was made from, for descriptor d *)
+Definition disclosed_form (v : variant) (d : desc) (i : nat) (c : cred) (w : wcred) : Prop :=
+  (w_key w = KTmp (d_id d) i /\ exists k, d_constraints d = Some k /\
+     ((c_sd c = false /\ w_cred w = limited_cred k c) \/ (c_sd c = true /\ k_limit k = true /\ w_cred w = sd_limited k c))) \/
+  (w_key w = id_key v i c /\ w_cred w = c /\
+     (forall k, d_constraints d = Some k -> k_limit k = false)).
+
+Lemma limit_one_cases : forall v d i c w, In w (limit_one v d (i, c)) -> w_src w = i /\ disclosed_form v d i c w.
 Proof.
-  intros v d i c w H. unfold limit_one in H. destruct (d_constraints d) as [k|].
-  - destruct (k_limit k && negb (existsb f_pred (k_fields k) || subject_is_issuer c)); [contradiction|].
-    destruct (k_limit k || existsb f_pred (k_fields k)) eqn:E.
-    + destruct H as [H|[]]. subst w. simpl. split; [reflexivity|]. left. split; [reflexivity|]. exists k. auto.
-    + destruct H as [H|[]]. subst w. simpl. split; [reflexivity|]. right. repeat split; auto.
-      intros k' Hk. inversion Hk; subst. apply orb_false_iff in E. tauto.
+  intros v d i c w H. unfold limit_one in H. unfold disclosed_form. destruct (d_constraints d) as [k|].
+  - destruct (c_sd c) eqn:Sd.
+    + destruct (k_limit k) eqn:L; destruct H as [H|[]]; subst w; simpl; (split; [reflexivity|]).
+      * left. split; [reflexivity|]. exists k. split; [reflexivity|]. right. auto.
+      * right. repeat split; auto. intros k' Hk. inversion Hk; subst. exact L.
+    + destruct (k_limit k && negb (existsb f_pred (k_fields k) || subject_is_issuer c)); [contradiction|].
+      destruct (k_limit k || existsb f_pred (k_fields k)) eqn:E.
+      * destruct H as [H|[]]. subst w. simpl. split; [reflexivity|]. left. split; [reflexivity|]. exists k. auto.
+      * destruct H as [H|[]]. subst w. simpl. split; [reflexivity|]. right. repeat split; auto.
+        intros k' Hk. inversion Hk; subst. apply orb_false_iff in E. tauto.
   - destruct H as [H|[]]. subst w. simpl. split; [reflexivity|]. right. repeat split; auto. discriminate.
 Qed.
 
 (* a wrapped credential of descriptor d derives from a credential of the holder that satisfies d *)
 Definition derives (v : variant) (p : defn) (creds : list cred) (d : desc) (w : wcred) : Prop :=
-  exists c, nth_error creds (w_src w) = Some c /\ sat_desc d c /\
-    ((w_key w = KTmp (d_id d) (w_src w) /\ exists k, d_constraints d = Some k /\ w_cred w = limited_cred k c) \/
-     (w_key w = id_key v (w_src w) c /\ w_cred w = c /\ (forall k, d_constraints d = Some k -> k_limit k = false))).
+  exists c, nth_error creds (w_src w) = Some c /\ sat_desc d c /\ disclosed_form v d (w_src w) c w.
 
 Lemma limit_disclosure_derives : forall v p creds d w,
   In w (limit_disclosure v d (snd (match_descriptor p d (index_creds 0 creds)))) -> derives v p creds d w.
@@ -94,7 +100,9 @@ Proof.
   destruct D1 as [[K1 [k1 [E1 R1]]]|[K1 [R1 _]]]; destruct D2 as [[K2 [k2 [E2 R2]]]|[K2 [R2 _]]];
     rewrite K1, K2 in K.
   - inversion K as [[Hd Hi]]. assert (m_desc m1 = m_desc m2) by congruence.
-    assert (d1 = d2) by congruence. subst d2. rewrite Hi in N1. congruence.
+    assert (d1 = d2) by congruence. subst d2. rewrite Hi in N1.
+    assert (c1 = c2) by congruence. subst c2. assert (k1 = k2) by congruence. subst k2.
+    destruct R1 as [[S1 R1]|[S1 [_ R1]]]; destruct R2 as [[S2 R2]|[S2 [_ R2]]]; congruence.
   - unfold id_key in K. destruct (N.eqb (c_id c2) 0); discriminate.
   - unfold id_key in K. destruct (N.eqb (c_id c1) 0); discriminate.
   - unfold id_key in K. destruct (N.eqb (c_id c1) 0) eqn:Z1; destruct (N.eqb (c_id c2) 0) eqn:Z2; try discriminate.
@@ -260,8 +268,9 @@ Lemma derives_schema : forall v p creds d w,
   derives v p creds d w -> d_schema d <> [] -> schema_ok (d_schema d) (w_cred w) = true.
 Proof.
   intros v p creds d w [c [_ [[S _] D]]] Hne. specialize (S Hne). unfold schema_ok in *.
-  destruct D as [[_ [k [_ E]]]|[_ [E _]]]; rewrite E; [|exact S].
-  rewrite (schema_loop_types (d_schema d) (limited_cred k c) c false); [exact S | reflexivity].
+  destruct D as [[_ [k [_ [[_ E]|[_ [_ E]]]]]]|[_ [E _]]]; rewrite E; try exact S.
+  - rewrite (schema_loop_types (d_schema d) (limited_cred k c) c false); [exact S | reflexivity].
+  - rewrite (schema_loop_types (d_schema d) (sd_limited k c) c false); [exact S | reflexivity].
 Qed.
 
 Lemma sel_derives : forall p creds sel id c,
@@ -349,11 +358,20 @@ Qed.
 
 Lemma limited_lemma : forall v p creds d w k,
   derives v p creds d w -> d_constraints d = Some k -> k_limit k = true ->
+  (forall c, nth_error creds (w_src w) = Some c -> c_rawsubj c = false) ->
   forall a, In a (map fst (c_attrs (w_cred w))) -> exists f, In f (k_fields k) /\ In a (f_paths f).
 Proof.
-  intros v p creds d w k [c [_ [_ D]]] Hk Hl a Ha.
+  intros v p creds d w k [c [N [_ D]]] Hk Hl Raw a Ha. specialize (Raw c N).
   destruct D as [[_ [k' [E1 E2]]]|[_ [_ E]]].
-  - assert (k' = k) by congruence. subst k'. rewrite E2 in Ha. unfold limited_cred in Ha. simpl in Ha. rewrite Hl in Ha.
-    apply write_fields_keys in Ha as [Ha|[]]. exact Ha.
+  - assert (k' = k) by congruence. subst k'. destruct E2 as [[_ E2]|[_ [_ E2]]]; rewrite E2 in Ha; simpl in Ha.
+    + rewrite Hl, Raw in Ha. apply write_fields_keys in Ha as [Ha|[]]. exact Ha.
+    + apply in_map_iff in Ha as [[a' b] [Ea Hin]]. simpl in Ea. subst a'. apply filter_In in Hin as [_ Hr].
+      simpl in Hr. unfold requested in Hr. apply existsb_exists in Hr as [f [F1 F2]]. exists f. split; [exact F1|].
+      apply memN_In. exact F2.
   - rewrite (E k Hk) in Hl. discriminate.
 Qed.
+
+(* SD-JWT: the disclosures kept are exactly the requested leaves of the holder's credential, values untouched *)
+Lemma sd_limited_exact : forall k c kv,
+  In kv (c_attrs (sd_limited k c)) <-> In kv (c_attrs c) /\ requested k (fst kv) = true.
+Proof. intros k c kv. unfold sd_limited. simpl. apply filter_In. Qed.
